@@ -9,6 +9,7 @@
     harness (schedule points at connection creation) and judged per query. *)
 From Verif Require Import Base.Prelude Gen.Constants Gen.RetryFacts Model.Retry Proofs.Retry.
 From Verif Require Model.Reuse Proofs.Reuse.
+From Verif Require Model.PPool Proofs.PPool.
 Open Scope N_scope.
 
 (** No query makes more than 4 passes through the loop, hence is never
@@ -78,3 +79,20 @@ Theorem c08_reuse_idle_conn_is_open ls s c n s' :
   xexists (conns s n) = true /\ xclosed (conns s n) = false.
 Proof. exact (reuse_idle_conn_is_open ls s c n s'). Qed.
 Print Assumptions c08_reuse_idle_conn_is_open.
+
+(** * Which attempts are "on a new connection" (pipeline.go getReservedExchanger; Model.PPool)
+
+    The flag that forbids a retry is set exactly when the pool created the connection in this very
+    pass: a pooled connection is never reported as new, a created one never as reused. *)
+Import Model.PPool Proofs.PPool.
+Theorem c08_pool_isnew_iff_created ls s vs f s1 n isnew :
+  prun pinit ls = Some s ->
+  pstep s (PGet vs f) = Some (s1, Some (PoConn n isnew)) ->
+  (isnew = true <-> ~ In n (pt_pool s)) /\ (isnew = false <-> In n (pt_pool s)).
+Proof.
+  intros Hr Hs. pose proof (poolinv_run ls pinit s poolinv_init Hr) as I.
+  destruct isnew.
+  - destruct (pool_get_new s vs f s1 n I Hs) as (_ & Hn & _). split; split; try tauto; try discriminate.
+  - destruct (pool_get_reused s vs f s1 n Hs) as (Hi & _). split; split; try tauto; try discriminate.
+Qed.
+Print Assumptions c08_pool_isnew_iff_created.
